@@ -98,6 +98,21 @@ def handleC14 (op : String) (input impl : Json) : Except String Json := do
           (fldD b "staged" Json.null).compress == "[]") then [] else ["discard-removes-all-staged-refs"]) ++
       (if headsOf (istates.headD Json.null) == initHeadsJ.compress then [] else [])
     return reply mj agree viol
+  | "tx-cli" =>
+    -- `wrgl transaction commit` failing midway (one staged commit object unreadable), then again with
+    -- the object restored: it completes to the all-branches outcome, each branch moved exactly once
+    if resClass impl == "panic" then return reply Json.null false ["no-panic"]
+    if resClass impl != "ok" then return reply Json.null false ["unexpected-error"]
+    let nb ← natFld input "branches"
+    let v := fldD impl "val" Json.null
+    let n := fun (k : String) => (fldD v k (jNat 0)).getNat?.toOption.getD 0
+    let b := fun (k : String) => (fldD v k (Json.bool false)).getBool?.toOption.getD false
+    let viol :=
+      (if b "firstFailed" then [] else ["harness-setup-failed"]) ++
+      (if n "movedAfterFirst" ≤ nb then [] else ["no-duplicate-commits"]) ++
+      (if b "secondOk" && n "movedAfterSecond" == nb then [] else ["rerun-completes-to-all-branches-outcome"]) ++
+      (if n "logEntries" == nb || !b "secondOk" then [] else ["each-branch-logged-exactly-once"])
+    return reply (Json.mkObj [("movedAfterSecond", jNat nb)]) viol.isEmpty viol
   | _ => throw s!"unknown op {op}"
 
 end Wrgl.Drv
